@@ -166,6 +166,9 @@ func (a *Allocator) Allocated() uint64 {
 	return uint64(alloc)
 }
 
+// TrimTo releases the buffers beyond the first max bytes. The first buffer is
+// always kept: every new buffer is sized from the one before it, so an
+// allocator without its first buffer could never allocate again.
 func (a *Allocator) TrimTo(max int) {
 	var alloc int
 	for i, b := range a.buffers {
@@ -173,7 +176,7 @@ func (a *Allocator) TrimTo(max int) {
 			break
 		}
 		alloc += len(b)
-		if alloc < max {
+		if i == 0 || alloc < max {
 			continue
 		}
 		Free(b)
